@@ -256,15 +256,18 @@ func (d *DeadlineChan[T]) Cancel(err error) error {
 // Close cancels pending calls to Send and Recv. Those calls will return
 // io.EOF rather than os.ErrDeadlineExceeded even after the deadline has expired
 func (d *DeadlineChan[T]) Close() error {
-	d.m.Lock()
-	defer d.m.Unlock()
-
-	if d.closed.Load() {
+	// Send holds d.m while it blocks on a full queue, so the closed flag must be
+	// set and the deadline finished before taking d.m: that is what releases a
+	// blocked Send (and lets Close itself return).
+	if d.closed.Swap(true) {
 		return io.EOF
 	}
-	d.closed.Store(true)
 	verifYield("DeadlineChan.Close.flagged")
 	d.deadline.finish(io.EOF)
+
+	// Wait for an in-flight Send to leave d.C; later Sends see the closed flag.
+	d.m.Lock()
+	defer d.m.Unlock()
 	return nil
 }
 
